@@ -29,6 +29,7 @@ type c07mCase struct {
 }
 
 func c07mRun(c c07mCase) (kind, what string) {
+	defer ev.Watch(fmt.Sprintf("whole restore command %+v", c), 150*time.Second, c)()
 	dir := filepath.Join(os.Getenv("VERIF_SCRATCH"), fmt.Sprintf("c07m-%d", os.Getpid()))
 	os.MkdirAll(dir, 0755)
 	defer os.RemoveAll(dir)
